@@ -15,6 +15,9 @@ def judge(rep, name, spec, cfg, trace_file, n_expected, sig_of=None, workers=2, 
     if res.distinct != n_expected + 65:   # + root + 64 fan-out blocks
         raise MachineryError("%s: judge visited %d states, expected %d records" % (name, res.distinct, n_expected))
     rejects = tlaval.find_printed(res.stdout, "REJECT")
+    if res.stdout.count('"REJECT"') != len(rejects):
+        raise MachineryError("%s: %d REJECT markers in TLC output but %d parsed" %
+                             (name, res.stdout.count('"REJECT"'), len(rejects)))
     seen = {}
     for r in rejects:
         seen.setdefault(r[0], r[1])
